@@ -46,8 +46,8 @@ var perturbSites = []string{"send.chunk.before", "send.fileend.before", "send.re
 	"recv.finalize.after", "recv.main.case.control", "recv.main.case.done", "sidecar.flush.begin"}
 
 func (x xcase) String() string {
-	return fmt.Sprintf("chunk=%d streams=%d conns=%d resume(s=%v,r=%v) noroot=%v mode=%s legacy=%v quicvis=%v window=%d perturb=%v tree=%s",
-		x.Chunk, x.Streams, x.Conns, x.SendResume, x.RecvResume, x.NoRootDir, x.Mode, x.Legacy, x.QUICVis, x.Window, x.Perturb, x.Tree.Describe())
+	return fmt.Sprintf("chunk=%d hash=%q streams=%d conns=%d resume(s=%v,r=%v) noroot=%v mode=%s legacy=%v quicvis=%v window=%d perturb=%v tree=%s",
+		x.Chunk, x.HashAlg, x.Streams, x.Conns, x.SendResume, x.RecvResume, x.NoRootDir, x.Mode, x.Legacy, x.QUICVis, x.Window, x.Perturb, x.Tree.Describe())
 }
 
 func (x xcase) fingerprint() string {
